@@ -1079,3 +1079,32 @@ def rule_claimed_bit(S, res, cs):
             res.ok("R2.1", "fashare ver|claimed-bit-mac", before[0].where(), "the claimed bits are MAC-checked with the own key and Delta, and that check lies before the opening of d0/d1 (`fashare di_bi`)")
         else:
             res.bad("R2.1", "fashare ver|claimed-bit-mac", "the MAC check of the claimed bits does not precede the opening of d0/d1 (`fashare di_bi`): the value selected by a misreported bit is sent before the claim is verified", mine[0].where())
+
+
+def rule_conflict_covers_own(S, res, cs):
+    """R2.11: the conflicting-mask test of `masked inputs` looks at the slot table that holds the party's *own*
+    masked inputs (the vector it broadcast): a value a peer announces for one of the own input wires must be a
+    conflict.  Testing only a table of the peers' values lets a peer override an honest party's input."""
+    fg = S.fg
+    l = "masked inputs"
+    sends = [s_ for s_ in S.inv.direct_sites() if l in (s_.label or []) and s_.body.owner.endswith("protocol::input_processing")]
+    mine = [c for c in cs if l in c.labels and "PRESENCE" in c.ing]
+    if not sends or not mine:
+        return      # reported by R2.1 / R2.0
+    ok = False
+    for c in mine:
+        for s_ in sends:
+            if s_.bk != c.bk:
+                continue
+            from an import root_local as _rl
+            pl = _rl(s_.body, s_.term["args"][-1])
+            if pl is None:
+                continue
+            back = fg.backward([n for n in c.cond_nodes if n[0] == c.bk], node_ok=lambda x: x[0] == c.bk, edge_ok=lambda e: secmod.struct_edge(e) or e.kind in ("alias", "alias_fb"), local=True)
+            if any(n[1] == pl for n in back) or any(n[0] == c.bk and n[1] == pl for n in c.cond_nodes):
+                ok = True
+    if ok:
+        res.ok("R2.11", "masked inputs|own-slots", mine[0].where(), "the conflict test inspects the table of the own masked inputs (the broadcast vector)")
+    else:
+        res.bad("R2.11", "masked inputs|own-slots", "the conflicting-mask test does not look at the party's own masked inputs: a peer that announces a value for an honest party's input wire overrides that input instead of being rejected", mine[0].where(),
+                key="R2.11|masked inputs|own-slots")
